@@ -9,9 +9,29 @@ From CG Require Import Model.Check.
 From CG Require Import Model.Dfa.
 From CG Require Import Spec.Choice.
 From CGgen Require Import Consts.
+From CG Require Import Model.Tpl.
+From CG Require Import Model.Quote.
+From CG Require Import Spec.ShellDQ.
+From CG Require Import Model.Tables.
+From CG Require Import Model.EmitBash.
+From CG Require Import Spec.ScriptRead.
+From CG Require Import Model.Dot.
+From CG Require Import Spec.DotRead.
+From CG Require Import Spec.DotSpec.
+From CG Require Import Spec.Mistakes.
+From CG Require Import Spec.Warnings.
+From CG Require Import Model.Minimize.
+From CG Require Import Spec.DfaEquiv.
+From CG Require Import Spec.MinimizeSpec.
+From CG Require Import Model.Regex.
+From CG Require Import Model.Subset.
+From CG Require Import Spec.Lang.
 From CG Require Import Model.Lexer.
 From CG Require Import Model.Parser.
 From CG Require Import Spec.Printer.
+From CG Require Import Model.Ambiguity.
+From CG Require Import Model.Driver.
+From CG Require Model.DotOfRegex.
 (* add new Require lines above this line *)
 Require Import ExtrOcamlBasic ExtrOcamlString.
 Extraction Language OCaml.
@@ -26,6 +46,69 @@ Separate Extraction
   Dfa.mkall
   Dfa.trans_states
   Choice.spec
+  Quote.make_string_constant
+  ShellDQ.read
+  ShellDQ.read_list
+  ShellDQ.admissibleb
+  Tables.all_tables
+  Tables.valid_orders
+  Tables.isomorphic_to
+  EmitBash.script_of_dfa
+  ScriptRead.read_stmts
+  Dot.of_dfa_with
+  Dot.of_regex_with
+  Dot.old
+  Dot.current
+  Dot.starts_at_zero
+  Dot.patched
+  Dot.mkvariant
+  Dot.escape_dot
+  Dot.escape_quotes
+  Dot.known_labels
+  Dot.known_subacc
+  Dot.known_phantom
+  Dot.known_rx
+  Dot.wf_cdfa
+  Dot.known_rx_all
+  Dot.rx_wf_b
+  Dot.rx_total_b
+  DotOfRegex.conv_regex
+  DotOfRegex.conv_pool
+  DotSpec.sub_ids
+  DotRead.read
+  DotRead.render_label
+  DotSpec.graph_of_dfa
+  DotSpec.view
+  DotSpec.compare
+  DotSpec.gdiff_ok
+  DotSpec.regex_missing
+  Mistakes.present
+  Mistakes.specs_have_command_plain
+  Warnings.unused_plain
+  Warnings.unused_for_shell
+  Warnings.undefined_reported
+  Minimize.minimize
+  Minimize.do_minimize
+  DfaEquiv.validate
+  DfaEquiv.equiv_dec
+  DfaEquiv.trim_dec
+  DfaEquiv.distinct_dec
+  DfaEquiv.states
+  MinimizeSpec.wfb
+  Regex.from_valid_expr
+  Regex.from_expr
+  Regex.regex_first
+  Regex.regex_follow
+  Regex.arena_consistent
+  Regex.unfold_arena
+  Subset.dfa_from_regex
+  Subset.valid_submap
+  Subset.pick_first
+  Subset.pick_last
+  Subset.pick_script
+  Lang.equiv_dfa_expr
+  Lang.equiv_wdfa_expr
+  Lang.levels_ok
   Parser.parse
   Parser.parse_with
   Parser.repaired
@@ -34,5 +117,7 @@ Separate Extraction
   Printer.located_with
   Printer.wf_stmt
   Printer.erase_grammar
+  Ambiguity.check_ambiguity_best_effort
+  Driver.compile
   (* add new roots above this line *)
   Prelude.pow2.
